@@ -16,6 +16,37 @@ Definition f_key (b : N) : Z :=
 Definition f_eqb (a b : N) : bool := negb (f_nan a) && negb (f_nan b) && (f_key a =? f_key b).
 
 (* datamodel.DeepEqual: same kind, scalars by ==, lists and maps element-wise in iteration order *)
+(* datamodel.DeepEqual of go-ipld-prime: lists and maps are compared entry by entry in iteration order, so two
+   maps that hold the same entries in another order are different (used by Args.Equals / Meta.Equals) *)
+Fixpoint deep_equal_ordered (a b : node) : bool :=
+  match a, b with
+  | Null, Null => true
+  | Bool x, Bool y => Bool.eqb x y
+  | Int x, Int y => x =? y
+  | Float x, Float y => f_eqb x y
+  | Str x, Str y => str_eqb x y
+  | Bytes x, Bytes y => str_eqb x y
+  | Link x, Link y => str_eqb x y
+  | List x, List y =>
+      (fix go (x y : list node) : bool :=
+         match x, y with
+         | [], [] => true
+         | p :: x', q :: y' => deep_equal_ordered p q && go x' y'
+         | _, _ => false
+         end) x y
+  | Map x, Map y =>
+      (fix go (x y : list (str * node)) : bool :=
+         match x, y with
+         | [], [] => true
+         | (k, p) :: x', (k', q) :: y' => str_eqb k k' && deep_equal_ordered p q && go x' y'
+         | _, _ => false
+         end) x y
+  | _, _ => false
+  end.
+
+(* the equality of the policy language (pkg/policy/match.go deepEqual): as above, except that maps are equal
+   when they have the same number of entries and every key of the first has an equal value in the second -
+   the order of entries is a property of how a value was built (a Go map, a decoded token), not of the value *)
 Fixpoint deep_equal (a b : node) : bool :=
   match a, b with
   | Null, Null => true
@@ -33,12 +64,12 @@ Fixpoint deep_equal (a b : node) : bool :=
          | _, _ => false
          end) x y
   | Map x, Map y =>
-      (fix go (x y : list (str * node)) : bool :=
-         match x, y with
-         | [], [] => true
-         | (k, p) :: x', (k', q) :: y' => str_eqb k k' && deep_equal p q && go x' y'
-         | _, _ => false
-         end) x y
+      (length x =? length y)%nat &&
+      (fix go (x : list (str * node)) : bool :=
+         match x with
+         | [] => true
+         | (k, p) :: x' => match map_get k y with Some q => deep_equal p q | None => false end && go x'
+         end) x
   | _, _ => false
   end.
 
